@@ -197,6 +197,36 @@ fn main() {
             }
             format!("object {}\nDECODED {}", v.join(","), match res { Some(d) => hex(&d), None => "none".to_string() })
         }),
+        // slab-ops T COUNT : the run-time dispatched kernels on symbols that sit at every byte alignment (symbol i starts at i*T):
+        // a fixed pseudo-random sequence of add_assign / fma / mulassign_scalar operations; prints the final slab
+        "slab-ops" => catch(|| {
+            let t: usize = arg(&a, 1);
+            let count: usize = arg(&a, 2);
+            let mut st: u64 = 0x9E37_79B9_7F4A_7C15 ^ (t as u64);
+            let mut next = || {
+                st = st.wrapping_mul(6364136223846793005).wrapping_add(1442695040888963407);
+                (st >> 33) as usize
+            };
+            let symbols: Vec<raptorq::Symbol> = (0..count).map(|_| raptorq::Symbol::new((0..t).map(|_| next() as u8).collect())).collect();
+            let init: Vec<String> = symbols.iter().map(|x| hex(x.as_bytes())).collect();
+            let mut slab = raptorq::SymbolSlab::from_symbols(symbols, t);
+            let mut ops = vec![];
+            for _ in 0..(4 * count) {
+                let d = next() % count;
+                let mut s2 = next() % count;
+                if s2 == d {
+                    s2 = (d + 1) % count;
+                }
+                let c = (next() % 254 + 2) as u8;
+                match next() % 3 {
+                    0 => { slab.add_assign(d, s2); ops.push(format!("0,{},{},1", d, s2)); }
+                    1 => { slab.fma(d, s2, &raptorq::Octet::new(c)); ops.push(format!("2,{},{},{}", d, s2, c)); }
+                    _ => { slab.mulassign_scalar(d, &raptorq::Octet::new(c)); ops.push(format!("1,{},0,{}", d, c)); }
+                }
+            }
+            let fin: Vec<String> = (0..count).map(|i| hex(slab.get(i))).collect();
+            format!("slab\nINIT {}\nOPS {}\nFINAL {}", init.join(","), ops.join(";"), fin.join(","))
+        }),
         other => format!("unknown sub-command {}", other),
     };
     let stdout = std::io::stdout();
